@@ -14,6 +14,7 @@ RULE = ("block indexes holding an active chain plus: header-only records (VALID_
         "CDiskBlockIndex layout) at, below and beyond the tip; failed records without data; and ONE data-bearing competitor class per case: "
         "never-connected stale sibling (VALID_TRANSACTIONS|HAVE_DATA), failed block with data (FAILED_VALID / FAILED_CHILD), once-active "
         "reorged-out branch (VALID_SCRIPTS|HAVE_DATA|HAVE_UNDO) of length 1..3, at an occupied height or beyond the tip, its hash ground "
+        "(mixed cases combine several competitors that must all lose: failed ones in either order, others sorting before) "
         "(nonce) to sort before or after the active block's key in LevelDB order. Real runs of the callbacks: the H1 delivery log must be "
         "exactly the active chain with every prev-hash linking to the block delivered before, and every output must equal the model of "
         "the active chain alone. distinct = (competitor class, position, key order, branch length, extras) signatures")
@@ -62,7 +63,21 @@ def build(spec):
     header_only = []
     cls, pos, order, length = spec["cls"], spec["pos"], spec["order"], spec.get("length", 1)
     competitors = []
-    if cls != "none":
+    if cls == "mixed_harmless":
+        # any mix of competitors that the loader must cope with today: failed blocks with data in either key order,
+        # stale / reorged-out blocks sorting BEFORE the active block, at several occupied heights at once
+        heights = rng.sample(range(1, tip + 1), min(tip, rng.randint(2, 5)))
+        for h in heights:
+            for c2, o2 in rng.sample([("failed_with_data", "after"), ("failed_child_with_data", "before"), ("failed_with_data", "before"),
+                                      ("stale_with_data", "before"), ("reorged_out", "before")], rng.randint(1, 3)):
+                b = competitor_block(rng, coin, byh[h - 1].hash, h, o2, byh[h].hash)
+                competitors.append((h, b))
+                placements.append(Placement(b, h, file=rng.choice([0, 1]), status=CLASSES[c2]))
+        for k in range(rng.randint(0, 2)):
+            b = competitor_block(rng, coin, byh[tip].hash, tip + 1 + k, None, None)
+            competitors.append((tip + 1 + k, b))
+            placements.append(Placement(b, tip + 1 + k, file=1, status=CLASSES[rng.choice(["failed_with_data", "failed_child_with_data"])]))
+    elif cls != "none":
         status = CLASSES[cls]
         if pos == "occupied_height":
             h0 = rng.randint(1, tip - length + 1) if not spec.get("at_tip") else tip - length + 1
@@ -103,6 +118,8 @@ def build(spec):
 
 
 def signature(spec):
+    if spec["cls"] == "mixed_harmless":
+        return "mixed-harmless-competitors"
     if spec["cls"] == "none":
         return "no-data-competitor:" + "+".join(sorted(set(spec.get("extras", [])))) or "none"
     cls = "failed_with_data" if spec["cls"].startswith("failed") else spec["cls"]
@@ -174,7 +191,7 @@ def case(spec):
     # one violation per case is enough for the report
     v = v[:2]
     return {"evaluations": runs, "violations": v, "shapes": ["%s|len%d|%s|%s" % (sig, spec.get("length", 1), "+".join(sorted(set(spec.get("extras", [])))), "tip" if spec.get("at_tip") else "-")],
-            "counters": {"runs": runs, "cases:" + ("benign" if spec["cls"] == "none" else spec["cls"]): 1, "header_only_records": len(header_only)},
+            "counters": {"runs": runs, "cases:" + ("benign" if spec["cls"] == "none" else spec["cls"]): 1, "competitor_records": len(competitors), "header_only_records": len(header_only)},
             "sample": {"coin": coin, "competitor": spec["cls"], "pos": spec["pos"], "order": spec["order"], "length": spec.get("length", 1), "extras": spec.get("extras")}}
 
 
@@ -199,6 +216,8 @@ def plan(chk):
             add(cls="none", pos="-", order="-", extras=[ex] * rng.randint(1, 3))
         add(cls="none", pos="-", order="-", extras=extras_pool * 2)
         add(cls="none", pos="-", order="-", extras=[])
+        for _ in range(4):
+            add(cls="mixed_harmless", pos="-", order="-")
         for cls in ("stale_with_data", "failed_with_data", "failed_child_with_data", "reorged_out"):
             for order in ("before", "after"):
                 for length in (1, 2, 3):
